@@ -22,7 +22,8 @@ RULE = (
     "process_message returns; 'interleave' additionally makes routing itself and single loop iterations scheduler choices (route "
     "next message / run exactly one loop iteration / complete one awaitable without running the loop), enumerated up to a depth "
     "bound, so that races between a completion's wake-up and the next routed message are reached; "
-    "process_message returns. Each explored schedule is one evaluation; non-trivial: some connection had >= 2 unfinished sends at a "
+    "process_message returns. One message of a burst may be long (3.3 kB) or huge (150 kB: beyond any plausible internal slice size). "
+    "Each explored schedule is one evaluation; non-trivial: some connection had >= 2 unfinished sends at a "
     "choice point. Schedules of one configuration are distinct by construction."
 )
 ASSUMPTIONS = [
@@ -39,7 +40,9 @@ def fixed_messages(n, long=False):
     for i in range(n):
         if long and i == 0:
             # longer than any plausible single write / read size
-            out.append(message.SetTextVector(device="D", name="P0", state="Ok", children=(one_parts.OneText(name="a", value="L" + "0123456789" * 330 + "R"),)))
+            # ("huge": longer than any plausible internal slice size as well - 150 kB, a mid-sized BLOB message)
+            reps = 15000 if long == "huge" else 330
+            out.append(message.SetTextVector(device="D", name="P0", state="Ok", children=(one_parts.OneText(name="a", value="L" + "0123456789" * reps + "R"),)))
             continue
         if i % 3 == 0:
             out.append(message.SetTextVector(device="D", name=f"P{i}", state="Ok", children=(one_parts.OneText(name="a", value=f"v{i}"), one_parts.OneText(name="b", value="x>y"))))
@@ -324,6 +327,8 @@ def configs(tier):
                     yield {"conns": conns, "n": n, "gaps": gaps, "stalled": stalled}
                     if 2 <= n <= 3 and len(conns) <= 2:
                         yield {"conns": conns, "n": n, "gaps": gaps, "stalled": stalled, "long": True}
+                    if n == 2 and len(conns) <= 2 and stalled is None:
+                        yield {"conns": conns, "n": n, "gaps": gaps, "stalled": stalled, "long": "huge"}
 
 
 burst_case = st.fixed_dictionaries(
@@ -347,6 +352,7 @@ def run(ctx):
         (["tcp"], 2, 12), (["tcp"], 3, 11), (["tty"], 2, 12), (["tty"], 3, 10), (["cli"], 3, 11), (["tcp", "tcp"], 2, 9),
     )]
     inter += [{"conns": c, "n": 2, "max_steps": 12, "long": True} for c in (["tcp"], ["tty"], ["cli"])]
+    inter += [{"conns": c, "n": 2, "max_steps": 8, "long": "huge"} for c in (["tcp"], ["cli"])]
     if ctx.tier == "thorough":
         inter += [{"conns": c, "n": n, "max_steps": ms, "max_runs": 400000} for c, n, ms in ((["tcp"], 4, 13), (["cli"], 4, 13), (["tty"], 3, 13), (["tcp", "tty"], 2, 11))]
     cnt2 = ctx.each("interleave", inter, check_interleave, stop_after=3, timeout=3000)
